@@ -42,6 +42,15 @@ func (x *inst) enabled() []string {
 					out = append(out, fmt.Sprintf("W:%d:%d", s[0], s[1]))
 				}
 			}
+		case "ULMW":
+			if !m.Open || (c.MaxWrites > 0 && nw >= c.MaxWrites) || (m.Mode != "RW" && m.Mode != "WO") {
+				continue
+			}
+			for _, s := range c.WShapes {
+				if s[0]+s[1] <= len(m.Live) {
+					out = append(out, fmt.Sprintf("ULMW:%d:%d", s[0], s[1]))
+				}
+			}
 		case "R":
 			if !m.Open {
 				continue
